@@ -154,5 +154,14 @@ class RevolvedRing(ExtrudedRing):
     def operations(self) -> List[Operation]:
         return self.revolves
 
+    @property
+    def grid(self) -> List[List[Operation]]:
+        return [self.revolves]
+
+    @property
+    def core(self) -> List[Operation]:
+        """A ring has no core"""
+        return []
+
     def chop_axial(self, **kwargs):
         self.operations[0].chop(self.axial_axis, **kwargs)
